@@ -3,7 +3,8 @@
     Spec/C01Spec.v, proofs in Proofs/C01_*.v. *)
 From InvokeVerif Require Import Corr.C01Corr Proofs.C01_witness Proofs.C01_steps Proofs.C01_occ
      Proofs.C01_roundtrip Proofs.C01_final Model.SigToCtx Proofs.C01_sig_bridge.
-From InvokeVerif Require Proofs.C01_wide_final Proofs.C01_wide_final2 Proofs.C01_inv Proofs.C01_sig_bridge_w.
+From InvokeVerif Require Proofs.C01_wide_final Proofs.C01_wide_final2 Proofs.C01_inv Proofs.C01_sig_bridge_w
+     Proofs.C01_widest2.
 
 (** The round trip, proved part.  [simple_guard cs ic inv]: the parser is
     well-formed ([parser_ok]: named tasks, distinct names/aliases), the initial
@@ -95,6 +96,51 @@ Example C01_widest_guard_inhabited :
      (Some "test", [("exclude", AList ["a"; "b"]); ("fast", ABool true)])].
 Proof. exact C01_wide_final2.wide_x_example. Qed.
 
+(** The widest proved fragment, second version (Proofs/C01_widest2.v): as above
+    plus
+      - DASH-LEADING VALUES of non-optional value arguments in all three
+        spellings -- "--name VALUE", "--name=VALUE", "-nVALUE" -- for ANY text
+        VALUE that is not a flag or inverse flag of the task itself (the
+        property's side condition "values not colliding with a flag"), not "--"
+        as a token of its own, and for the glued spelling non-empty without "="
+        (F-C01b);
+      - BARE OPTIONAL-VALUE FLAGS ("--opt" alone means True; no positional still
+        missing, not given before), directly followed by an item whose first
+        token is an exact flag of the task, a "flag=value" token or an inverse
+        flag ([head_own]), or ending the command line in the last call.
+    [guard_wide2] additionally asks that no task name or alias starts with "-"
+    ([names_plain]; else "--opt --x" could be the documented "value or task?"
+    ambiguity error).  The composition threads a machine-state predicate that
+    is either quiescent ([inert]) or pending ([Rep]).  It accepts every
+    invocation of the previous theorem ([C01_widest2_extends_widest]). *)
+Theorem C01_spell_roundtrip_partial_widest2 : forall cs ic inv,
+  C01_widest2.guard_wide2 cs ic inv = true ->
+  exists r, parser_parse cs (Some ic) false (spell cs inv) = Ok r /\
+            hd_error (pr_ctxs r) = Some (init_ctx ic) /\
+            map obs_of_ctx (tl (pr_ctxs r)) = expected cs inv /\
+            pr_unparsed r = [] /\ pr_remainder r = "".
+Proof. exact C01_widest2.spell_roundtrip_widest2_closed. Qed.
+
+Theorem C01_widest2_extends_widest : forall cs ic inv,
+  C01_widest2.names_plain cs = true ->
+  C01_wide_final2.guard_wide_x cs ic inv = true -> C01_widest2.guard_wide2 cs ic inv = true.
+Proof. exact C01_widest2.guard_wide_x_2. Qed.
+
+Example C01_widest2_guard_inhabited :
+  C01_widest2.guard_wide2 [C01_wide_final.ex_build; C01_wide_final.ex_test] core_ctx
+                          C01_widest2.ex_inv2 = true /\
+  spell [C01_wide_final.ex_build; C01_wide_final.ex_test] C01_widest2.ex_inv2 =
+    ["test"; "-e=--all"; "--exclude"; "-"; "--fast";
+     "build"; "thing"; "--log"; "--no-clean"; "--out-dir"; "-x"; "-vvj"; "8";
+     "b"; "other"; "-o-y"; "-l"] /\
+  expected [C01_wide_final.ex_build; C01_wide_final.ex_test] C01_widest2.ex_inv2 =
+    [(Some "test", [("exclude", AList ["--all"; "-"]); ("fast", ABool true)]);
+     (Some "build", [("name", AStr "thing"); ("verbose", AInt 2); ("out_dir", AStr "-x");
+                     ("clean", ABool false); ("log", ABool true); ("jobs", AInt 8)]);
+     (Some "build", [("name", AStr "other"); ("verbose", AInt 0); ("out_dir", AStr "-y");
+                     ("clean", ABool true); ("log", ABool true); ("jobs", AInt 1)])].
+Proof. exact C01_widest2.widest2_example. Qed.
+
 (** ... and its per-task guard holds for contexts built from well-formed
     signatures that MAY have required positionals and counters. *)
 Theorem C01_wf_ctxs_of_wf_sigs_wide_partial : forall ts,
@@ -147,9 +193,37 @@ Example C01_guard_inhabited :
                         "-n"; "deploy"; "deploy"; "-t=prod"; "build"].
 Proof. exact example_guard. Qed.
 
-(** The full statement
+(** The full statement  [C01_spell_roundtrip]:
       forall cs inv, admissible cs inv = true -> model_roundtrip cs inv = true
-    is FALSE of the faithful model, two ways. *)
+    is FALSE of the faithful model, two ways (F-C01a, F-C01b below).
+
+    WHAT STILL LIES OUTSIDE the proved fragment ([C01_spell_roundtrip_partial_widest2],
+    guard [guard_wide2]) although [admissible] (Spec/C01Spec.v) allows it --
+    exactly:
+      findings
+       1. F-C01a: a task with a NON-EMPTY LIST DEFAULT ([list_default_ok] in [guard_w]);
+       2. F-C01b: a glued value "-nVALUE" whose VALUE contains "=";
+      spelling forms not yet proved (the correspondence and the bounded sweep
+      cover them; no disagreement known)
+       3. optional-value flags (a) with the value GLUED ("-lfile"), (b) of list
+          kind (optional + iterable) given with a value, (c) given BARE and
+          directly followed by a glued-value token, a stacked counter or a
+          cluster ("--log -vv", "--log -j4") -- [admissible] only asks that the
+          next token's split head is a flag of the task;
+       4. a CLUSTER whose trailing value begins with "-" ("-vj -1"): cluster
+          members still take plain values only;
+       5. positional arguments declared OPTIONAL given by position;
+      side conditions of the guard that [admissible] does not state
+       6. every flag spelling of the task is a clean flag and distinct, counters
+          start from an int/bool default, positional None-defaults can take a
+          value ([guard_w]; implied for contexts built from well-formed
+          signatures, [C01_wf_ctxs_of_wf_sigs_wide_partial]); no task name or
+          alias starts with "-" ([names_plain]); the initial context has no
+          required positional (true of the real core context);
+      outside this property
+       7. core options interleaved with the task's arguments: C18
+          ([C18_prefix_placement_equiv_partial] composes a core prefix with the
+          simple fragment; F-C18b/c are the known exceptions). *)
 
 (** F-C01a: a list-typed declared default ([x=['p']]) is replaced by [] when the
     flag is not given ("declared defaults for everything not mentioned"). *)
